@@ -51,7 +51,7 @@ pub fn fam_for(tier: Tier, prop: &str) -> Vec<CaseSpec> {
         // box (4-cycle) with exactly one massive propagator: the mass can be separated from the momentum-carrying component
         let boxg: Vec<(u8, u8)> = vec![(0, 1), (1, 2), (2, 3), (3, 0)];
         for m in 0..4usize {
-            for ext in [vec![0u8, 1], vec![0, 2], vec![0, 1, 2]] {
+            for ext in [vec![0u8, 1], vec![0, 2], vec![0, 1, 2], vec![2, 3], vec![1, 2], vec![3, 2]] {
                 for d in [3usize, 4] {
                     for w in [1.0, 0.75, 1.5, d as f64] {
                         let massive: Vec<bool> = (0..4).map(|e| e == m).collect();
@@ -64,7 +64,9 @@ pub fn fam_for(tier: Tier, prop: &str) -> Vec<CaseSpec> {
                 }
             }
         }
-        for (topo, exts) in [(crate::scope::kite(), vec![vec![0u8, 3], vec![0, 1, 3]]), (crate::scope::banana(3), vec![vec![0u8, 1]])] {
+        // necklace: two bubbles (edge-disjoint cycles) coupled through a third cycle: exact zeros in L with Cholesky fill-in
+        let necklace: Vec<(u8, u8)> = vec![(0, 1), (0, 1), (1, 2), (1, 2), (2, 0)];
+        for (topo, exts) in [(crate::scope::kite(), vec![vec![0u8, 3], vec![0, 1, 3]]), (crate::scope::banana(3), vec![vec![0u8, 1]]), (necklace, vec![vec![0u8, 1], vec![0, 1, 2]])] {
             let ne = topo.len();
             for massive in [vec![false; ne], (0..ne).map(|e| e == 1).collect::<Vec<bool>>()] {
                 for ext in &exts {
@@ -970,6 +972,43 @@ pub fn c12_binding_point(case: &Case, r: &Routed, po: &PointObs, _nd: usize, acc
         }
     }
 
+/// in-place replacement: sampler i is sampled, the SAME memory slot is overwritten by sampler i+1 (different dod) and that is
+/// sampled at the bit-identical lambda coordinate; the lambda must be the quantile for the NEW sampler's dod
+fn c12_binding_inplace(cases: &[CaseSpec]) -> Acc {
+    let st = Settings::META;
+    let npairs = cases.len().saturating_sub(1);
+    par_for(npairs, |i, acc| {
+        let (ca, cb) = match (Case::new(&cases[i]), Case::new(&cases[i + 1])) {
+            (Some(a), Some(b)) => (a, b),
+            _ => return,
+        };
+        let mut slot: Vec<Routed> = match route(&ca, &ca.base_kin()) {
+            Ok(r) => vec![r],
+            Err(_) => return,
+        };
+        for p in [0.375, 0.75, 1e-3] {
+            let oa: Vec<usize> = (0..ca.g.ne()).collect();
+            let mut xa = sector_defaults(&ca, &oa);
+            xa[2 * ca.g.ne() - 2] = p;
+            let _ = slot[0].sampler.sample(&xa, &slot[0].ed, &st);
+            slot[0] = match route(&cb, &cb.base_kin()) {
+                Ok(r) => r,
+                Err(_) => return,
+            };
+            let ob: Vec<usize> = (0..cb.g.ne()).collect();
+            let mut xb = sector_defaults(&cb, &ob);
+            xb[2 * cb.g.ne() - 2] = p;
+            let po = observe_point(&cb, &slot[0], &xb, &st);
+            acc.inc("binding_inplace_replacements");
+            c12_binding_point(&cb, &slot[0], &po, 0, acc);
+            slot[0] = match route(&ca, &ca.base_kin()) {
+                Ok(r) => r,
+                Err(_) => return,
+            };
+        }
+    })
+}
+
 /// C12 binding: the lambda of a sample is the quantile function of (dod, designated coordinate)
 pub fn c12_binding(ctx: &Ctx) -> Acc {
     let tier = ctx.tier;
@@ -989,7 +1028,9 @@ pub fn c12_binding(ctx: &Ctx) -> Acc {
         basis_orbit: false,
     };
     let f = |case: &Case, r: &Routed, po: &PointObs, nd: usize, acc: &mut Acc| c12_binding_point(case, r, po, nd, acc);
-    explore(&plan, &f)
+    let mut acc = explore(&plan, &f);
+    acc.merge(c12_binding_inplace(&plan.cases));
+    acc
 }
 
 pub fn run_simple(ctx: &Ctx) -> i32 {
@@ -1051,7 +1092,11 @@ pub fn run_simple(ctx: &Ctx) -> i32 {
             _ => tier.pick(7, 3),
         },
         tropical_routing: matches!(prop, "C09" | "C10" | "C11"),
-        points_per_case: tier.pick(1500, 20000) * if prop == "C10" { 3 } else { 1 },
+        points_per_case: match prop {
+            "C10" => tier.pick(4500, 60000),
+            "C09" => tier.pick(1000, 20000),
+            _ => tier.pick(1500, 20000),
+        },
         basis_orbit: prop == "C10",
     };
     let f: &PointFn = match prop {
